@@ -367,7 +367,6 @@ func mustJSON(v any) string {
 // command is dropped, then earlier items are removed one at a time while the
 // same violation key reproduces and the log stays consistent.
 func shrinkFailure(b *built, f failure) (failure, replayData) {
-	ci := b.info(f.Cut)
 	// index of the item that contains the cut (or the first item at/after it)
 	itemIdx := len(b.segs)
 	for i, s := range b.segs {
@@ -382,7 +381,6 @@ func shrinkFailure(b *built, f failure) (failure, replayData) {
 		rel = f.Cut - b.segs[itemIdx].start
 		items = items[:itemIdx+1]
 	}
-	_ = ci
 	best, bestCut, bestF := items, f.Cut, f
 	budget := 14
 	for i := len(best) - 2; i >= 0 && budget > 0; i-- {
